@@ -21,10 +21,11 @@ func c11Specs() []*edt.Spec {
 			Vars: map[string]string{"(Element.IsNegative(" + S + ") == 1)": "sNegative"},
 			VarPrefix: map[string]string{
 				// canonicity is decided by re-encoding the SAME bytes
-				"(subtle.ConstantTimeCompareBytes($compressed, out1(Element.ToBytes(" + S + ", ":                                                                                             "canonical",
-				"(res1(Element.InvSqrt(Element.Mul(Element.Sub(Element.Mul(Element.Neg(@curve.constEDWARDS_D), Element.Square(Element.Sub(@internal/field.One, Element.Square(" + S + "))))": "wasSquare",
-				"(Element.IsNegative(Element.Mul(Element.ConditionalNegate(Element.Mul(Element.Add(" + S + ", " + S + "), ":                                                                  "tNegative",
-				"(Element.IsZero(Element.Mul(Element.Sub(@internal/field.One, Element.Square(" + S + ")), ":                                                                                  "yZero",
+				"(subtle.ConstantTimeCompareBytes($compressed, out1(Element.ToBytes(" + S + ", ": "canonical",
+				// the arithmetic inside these predicates is not decided here (numeric): they are recognised by shape
+				"(res1(Element.InvSqrt(":           "wasSquare",
+				"(Element.IsNegative(Element.Mul(": "tNegative",
+				"(Element.IsZero(Element.Mul(":     "yZero",
 			},
 			Assume: map[string]edt.Assumption{"isnil(err(" + S + "))": {Val: true, Why: "field SetBytes fails only on a wrong length; the argument is a 32-byte array"}},
 			Classify: func(p *edt.Path, out string, e *edt.Env) string {
@@ -94,7 +95,7 @@ func c11Specs() []*edt.Spec {
 			},
 		},
 		// coset-aware equality: X1*Y2 == Y1*X2  OR  X1*X2 == Y1*Y2
-		termSpec("curve", "(*RistrettoPoint).Equal", nil, "(Element.Equal(Element.Mul($p.inner.inner.X, $other.inner.inner.Y), Element.Mul($p.inner.inner.Y, $other.inner.inner.X)) | Element.Equal(Element.Mul($p.inner.inner.X, $other.inner.inner.X), Element.Mul($p.inner.inner.Y, $other.inner.inner.Y)))"),
+		termSpec("curve", "(*RistrettoPoint).Equal", nil, "(Element.Equal(Element.Mul($other.inner.inner.X, $p.inner.inner.X), Element.Mul($other.inner.inner.Y, $p.inner.inner.Y)) | Element.Equal(Element.Mul($other.inner.inner.X, $p.inner.inner.Y), Element.Mul($other.inner.inner.Y, $p.inner.inner.X)))"),
 		{
 			// one-way map: exactly 64 bytes, halves [0:32] and [32:64], two Elligator calls, sum
 			Pkg: "curve", Func: "(*RistrettoPoint).SetUniformBytes", Opaque: []string{"RistrettoPoint.elligatorRistrettoFlavor", "RistrettoPoint.Add"}, MinPaths: 2,
